@@ -255,6 +255,18 @@ Theorem c16_rendered_termcolor_table_values : forall t m, tcr_tstyle_ok t -> ad_
   exists sp, tcr_spec_of t = Some sp /\ tcr_spec_ok sp /\ tcr_shown sp = m.
 Proof. exact tcr_meaning_shown. Qed.
 
+(* [tcr_spec_of] is the call sequence of to_termcolor_spec: the abstract value the translated
+   adapter builds for ColorSpec::new(); set_fg; set_bg; set_bold(b1); set_dimmed(b2); set_italic(b3);
+   set_underline(b4) denotes the ColorSpec the translated constructor and setters build in that order
+   ([tcr_n_set_bold] .. are the names "set_bold" .. as byte lists) *)
+Theorem c16_rendered_termcolor_value_is_call_sequence : forall cf cb f b b1 b2 b3 b4,
+  tcr_ocolor_of cf = Some f -> tcr_ocolor_of cb = Some b ->
+  tcr_spec_of (ad_t_flag (ad_t_flag (ad_t_flag (ad_t_flag (ad_t_set_bg (ad_t_set_fg ad_t_new cf) cb)
+                 tcr_n_set_bold b1) tcr_n_set_dimmed b2) tcr_n_set_italic b3) tcr_n_set_underline b4) =
+  Some (fst (g_tcr_set_underline (fst (g_tcr_set_italic (fst (g_tcr_set_dimmed (fst (g_tcr_set_bold
+         (fst (g_tcr_set_bg (fst (g_tcr_set_fg g_tcr_spec_new f)) b)) b1)) b2)) b3)) b4)).
+Proof. exact tcr_spec_of_call_sequence. Qed.
+
 (* hence the library RENDERS such a value as the tables say (no normalisation needed: equal) *)
 Theorem c16_rendered_termcolor_as_tables_say : forall t m, tcr_tstyle_ok t -> ad_meaning AdTermcolor t = Some m ->
   exists bytes, tcr_render_tstyle t = Some bytes /\ ad_interp_x bytes = Some m /\ ad_render_ok m bytes = true.
